@@ -42,7 +42,7 @@ def cases(tier, seed):
                 continue  # MatNet's one-hot column embedding needs embed_dim >= number of nodes (zoo networks are 32 wide)
             for r in range(2 if q else 10):
                 out.append(dict(policy=kind, env=env, n=n, m=6 if q else 8, s=rnd.randrange(10**6), wseed=r, extra=extra))
-    for env in ("tsp", "cvrp", "pctsp", "pdp"):
+    for env in ("tsp", "cvrp", "sdvrp", "pctsp", "pdp", "op"):
         for n in ((6, 8) if q else (6, 8, 10, 20)):
             for r in range(2 if q else 6):
                 k = n // 2 if env == "pdp" else n
